@@ -340,6 +340,13 @@ resume_load_uncertain_pieces(Download download, const Object& object) {
 
 void
 resume_save_uncertain_pieces(Download download, Object& object) {
+  // Pieces an earlier session listed stay uncertain until this session
+  // has completed the hash check they request. Saving before that (or
+  // while closed) must not drop them: resume_save_progress keeps the
+  // old bitfield in that case too.
+  if (!download.is_hash_checked())
+    return;
+
   // Add information on what chunks might still not have been properly
   // written to disk.
   object.erase_key("uncertain_pieces");
